@@ -1,5 +1,6 @@
-import Verif.Proofs.Lin.Sound
+import Verif.Proofs.Lin.Doom
 import Verif.Proofs.Lin.Enum
+import Verif.Proofs.Lin.EnumComplete
 /-!
 # C03 — The checker rejects every resource-linearity violation
 
@@ -11,26 +12,58 @@ on the real parser's AST).  Judge: `Verif.Spec.Paths` — path semantics, `AllLi
 Full-strength statements (the property):
   sound    : names unique → linCheck f = [] → AllLinear f
   complete : names unique → no unreachable statement → AllLinear f → linCheck f = []
-Both are FALSE for the code as it is: `unsound_witness_loop_then_halt` and the four
-`incomplete_witness_*` theorems below are counterexamples in the port, replayed on the Go checker
-by the stream (corpus/lin/findings.txt; known findings of C03).
+Both are FALSE for the code as it is: `unsound_witness_loop_then_halt`,
+`unsound_witness_break_in_returning_branch` and the four `incomplete_witness_*` theorems below are
+counterexamples in the port, replayed on the Go checker by the stream (corpus/lin/findings.txt;
+known findings of C03).
 
-Proved: `sound_straightline_partial` — soundness for functions without conditionals and loops
-(declarations, moves, destroy, uses, swap, return, panic, unreachable-statement handling), with the
-abstraction invariant `Verif.Proofs.Lin.Inv` (no recorded invalidation ⇒ valid on the path,
-definite invalidation ⇒ gone, exactly the variables in scope are present).  Missing for the full
-fragment: the merge cases (`if/else`, optional binding: needs the characterisation `merged_get` of
-`Resources.MergeBranches`, proved in `Proofs/Lin/Check.lean`, carried through the induction) and
-loops (false as stated, see the witness; true under "no `panic` after a loop").
+Proved (soundness, by induction on statements with the abstraction invariant
+`Verif.Proofs.Lin.Inv`: along every path prefix that falls through to the current program point,
+no recorded invalidation ⇒ valid, definite invalidation ⇒ gone, potential ⇒ either; exactly the
+variables in scope are present; `DefinitelyExited` ⇒ no path falls through):
+* `sound_branching_partial` — all loop-free functions (`if`/`else`, optional binding, return, panic);
+  the merge cases rest on `merge_pointwise` and on `mergeResourceInfos` seen from the branch a path
+  takes (`Proofs/Lin/Merge.lean`).
+* `sound_loops_partial` — functions with loops but without `break`/`continue`, under the decidable
+  syntactic hypothesis `noHaltAfterInvalidatingLoop` (no `panic` textually after a loop whose body
+  invalidates a variable it does not declare); via `sound_loops_clean_partial` (semantic hypothesis
+  `loopsClean`) and the "doom" argument of `Proofs/Lin/Doom.lean`: a potential invalidation left by
+  a loop is never overwritten and makes every later `return` / scope end report a loss unless a
+  halt intervenes.
+Missing for the full fragment: `break`/`continue` inside loops (the statement is false there, see
+`unsound_witness_break_in_returning_branch`; a proof needs an invariant for the jumping paths
+and a hypothesis excluding a jump in a returning branch); `paths_unroll2_complete` (the judge's
+"all paths linear" verdict for loops relies on unrolling ≤ 2; with unique names it holds because
+per variable the effect of an iteration is monotone valid → gone, not proved here); completeness.
 -/
 namespace Verif.Properties.C03
 open Verif.Model.Lin Verif.Spec.Paths
 
-/-- **Soundness, straight-line fragment.**  If the port of the checker reports nothing for a
-    function without conditionals and loops, every path of the function is linear. -/
+/-- **Soundness, loop-free fragment.**  If the port of the checker reports nothing for a function
+    without loops (declarations, moves, destroy, uses, swap, `if`/`else`, optional binding, return,
+    panic, unreachable-statement handling), every path of the function is linear.  Missing for the
+    full statement: loops (see `sound_loops_partial`). -/
+theorem sound_branching_partial (f : Fn) (hfrag : f.body.hasLoop = false)
+    (hnames : (f.params.map (·.1) ++ f.body.declNames).Nodup) (h : linCheck f = []) : AllLinear f :=
+  Verif.Proofs.Lin.sound_fn_branching f hfrag hnames h
+
+/-- non-vacuity: an accepted function with an optional binding, an `if`/`else` whose branches both
+    invalidate, a branch that invalidates and returns, and a halting else branch -/
+example : ∃ f : Fn, f.body.hasLoop = false ∧ (f.params.map (·.1) ++ f.body.declNames).Nodup ∧ linCheck f = [] ∧
+    f.body.hasIflet = true :=
+  ⟨{ params := [("p", 1), ("q", 2)],
+     body := .ofList [
+       .iflet "y" 10 "p" 15 (.ofList [.atom (.use "y"), .atom (.destroy "y" 30)]) .nop,
+       .atom (.letR "r" 40 .create),
+       .ite (.ofList [.atom (.destroy "r" 50), .atom (.destroy "q" 55), .atom .ret]) .nop,
+       .ite (.ofList [.atom (.eat "r" 60)]) (.ofList [.atom (.destroy "r" 70)]),
+       .ite (.ofList [.atom (.destroy "q" 80)]) (.ofList [.atom .panic])] },
+   by decide, by decide, by decide, by decide⟩
+
+/-- **Soundness, straight-line fragment** (a corollary of `sound_branching_partial`). -/
 theorem sound_straightline_partial (f : Fn) (hfrag : f.body.hasBranch = false)
     (hnames : (f.params.map (·.1) ++ f.body.declNames).Nodup) (h : linCheck f = []) : AllLinear f :=
-  Verif.Proofs.Lin.sound_fn_straight f hfrag hnames h
+  sound_branching_partial f (Verif.Proofs.Lin.hasLoop_of_noBranch _ hfrag) hnames h
 
 /-- non-vacuity: an accepted function with a parameter, a move, a use and an early return -/
 example : ∃ f : Fn, f.body.hasBranch = false ∧ (f.params.map (·.1) ++ f.body.declNames).Nodup ∧ linCheck f = [] ∧
@@ -38,6 +71,50 @@ example : ∃ f : Fn, f.body.hasBranch = false ∧ (f.params.map (·.1) ++ f.bod
   ⟨{ params := [("p", 1)],
      body := .ofList [.atom (.letR "r" 10 (.move "p" 15)), .atom (.use "r"), .atom (.destroy "r" 30), .atom .ret] },
    by decide, by decide, by decide, by decide⟩
+
+/-- **Soundness with loops (semantic hypothesis).**  For functions without `break`/`continue`: if
+    the port reports nothing and no loop body that can fall through leaves an invalidation of a
+    resource declared outside the body (`loopsClean`, computed from the checker's own states),
+    every path is linear.  The hypothesis cannot be dropped: `unsound_witness_loop_then_halt`. -/
+theorem sound_loops_clean_partial (f : Fn) (hjump : f.body.hasJump = false) (hclean : loopsClean f = true)
+    (hnames : (f.params.map (·.1) ++ f.body.declNames).Nodup) (h : linCheck f = []) : AllLinear f :=
+  Verif.Proofs.Lin.sound_fn f (Or.inr hjump) hclean hnames h
+
+/-- non-vacuity: loops that use an outer resource, own a resource, and invalidate an outer
+    resource before returning -/
+example : ∃ f : Fn, f.body.hasJump = false ∧ loopsClean f = true ∧
+    (f.params.map (·.1) ++ f.body.declNames).Nodup ∧ linCheck f = [] ∧ f.body.hasLoop = true :=
+  ⟨{ params := [("p", 1)],
+     body := .ofList [
+       .while (.ofList [.atom (.use "p"), .atom (.letR "x" 20 .create), .atom (.destroy "x" 30)]),
+       .while (.ofList [.atom (.destroy "p" 50), .atom .ret]),
+       .atom (.destroy "p" 70)] },
+   by decide, by decide, by decide, by decide, by decide⟩
+
+/-- **Soundness with loops.**  For functions without `break`/`continue`: if the port reports
+    nothing and no `panic` textually follows (in the same or an enclosing statement list) a loop
+    whose body invalidates a variable it does not declare, every path is linear.  The hypothesis
+    is syntactic and decidable; it excludes exactly the shape of `unsound_witness_loop_then_halt`
+    (see the `example`s below).  Missing for the full statement: `break`/`continue` inside loops
+    (where the statement is false as well: `unsound_witness_break_in_returning_branch`). -/
+theorem sound_loops_partial (f : Fn) (hjump : f.body.hasJump = false)
+    (hnohalt : noHaltAfterInvalidatingLoop f = true)
+    (hnames : (f.params.map (·.1) ++ f.body.declNames).Nodup) (h : linCheck f = []) : AllLinear f :=
+  sound_loops_clean_partial f hjump
+    (Verif.Proofs.Lin.loopsClean_of_accept f hjump hnohalt hnames h) hnames h
+
+/-- non-vacuity: a loop using an outer resource and owning one, a halting branch, then a loop
+    that invalidates the outer resource and returns -/
+example : ∃ f : Fn, f.body.hasJump = false ∧ noHaltAfterInvalidatingLoop f = true ∧
+    (f.params.map (·.1) ++ f.body.declNames).Nodup ∧ linCheck f = [] ∧
+    f.body.hasInvalidatingLoop = true ∧ f.body.hasHalt = true :=
+  ⟨{ params := [("p", 1)],
+     body := .ofList [
+       .while (.ofList [.atom (.use "p"), .atom (.letR "x" 20 .create), .atom (.destroy "x" 30)]),
+       .ite (.ofList [.atom .panic]) .nop,
+       .while (.ofList [.atom (.destroy "p" 50), .atom .ret]),
+       .atom (.destroy "p" 70)] },
+   by decide, by decide, by decide, by decide, by decide, by decide⟩
 
 /-- the merge of `Resources.MergeBranches`, pointwise: the invalidation of `x` after the branches is
     the outer one if there is one, else `mergeResourceInfos` of the branches' (all states, all
@@ -75,6 +152,26 @@ theorem judge_nonlinear_exact (k : Nat) (f : Fn) (h : allLinearN k f = false) : 
 
 example : allLinearN 2 ⟨[("p", 1)], .ofList [.ite (.ofList [.atom (.destroy "p" 5)]) .nop]⟩ = false := by decide
 
+/-- **The judge is exact for loop-free functions**, in both directions and for every unroll bound:
+    the enumeration contains every path.  This is the loop-free part of `paths_unroll2_complete`
+    (`allLinearN 2 f = true → AllLinear f` for all `f` with unique names); missing: loops, where two
+    unrollings suffice because per variable an iteration maps valid ↦ valid | gone and gone ↦ gone. -/
+theorem judge_exact_loopfree_partial (k : Nat) (f : Fn) (h : f.body.hasLoop = false) :
+    allLinearN k f = true ↔ AllLinear f := by
+  constructor
+  · intro hall π o hp
+    obtain ⟨p, hpm, rfl⟩ := Verif.Proofs.Lin.fnPathsN_complete_noloop k f h hp
+    have := List.all_eq_true.1 hall p hpm
+    exact this
+  · intro hall
+    cases hb : allLinearN k f with
+    | true => rfl
+    | false => exact absurd hall (judge_nonlinear_exact k f hb)
+
+example : ∃ f : Fn, f.body.hasLoop = false ∧ f.body.hasBranch = true ∧ allLinearN 2 f = true :=
+  ⟨⟨[("p", 1)], .ofList [.ite (.ofList [.atom (.destroy "p" 5)]) (.ofList [.atom (.eat "p" 9)])]⟩,
+   by decide, by decide, by decide⟩
+
 /-! ## Findings -/
 
 /-- `let r <- create R(); while c { destroy r }; panic("")` -/
@@ -86,6 +183,24 @@ def loopHaltFn : Fn :=
     at the end of `r`'s scope, and a halt suppresses that report. -/
 theorem unsound_witness_loop_then_halt : linCheck loopHaltFn = [] ∧ ¬ AllLinear loopHaltFn :=
   ⟨by decide, judge_nonlinear_exact 2 loopHaltFn (by decide)⟩
+
+/-- `var r <- create R(); while c { if c { destroy r; if c { break }; return } }; destroy r` -/
+def breakReturnFn : Fn :=
+  { params := [], body := .ofList [.atom (.letR "r" 10 .create),
+      .while (.ofList [.ite (.ofList [.atom (.destroy "r" 30), .ite (.ofList [.atom (.brk 40)]) .nop, .atom .ret]) .nop]),
+      .atom (.destroy "r" 80)] }
+
+/-- **Finding (unsound)**: the then branch "definitely returned" (its last statement is a
+    `return`), so `mergeResourceInfos` drops its invalidation of `r` — but a path leaves the branch
+    by `break` after destroying `r`, falls out of the loop, and destroys `r` again.  (The loop
+    clears the definite-return flag when a jump occurred, the conditional merge inside the loop
+    body does not.)  Found by the soundness proof: the invariant for `break` paths fails here. -/
+theorem unsound_witness_break_in_returning_branch : linCheck breakReturnFn = [] ∧ ¬ AllLinear breakReturnFn :=
+  ⟨by decide, judge_nonlinear_exact 2 breakReturnFn (by decide)⟩
+
+/-- the hypothesis of `sound_loops_partial` excludes exactly this function -/
+example : loopHaltFn.body.hasJump = false ∧ noHaltAfterInvalidatingLoop loopHaltFn = false ∧ loopsClean loopHaltFn = false := by
+  decide
 
 /-- `while c { let x <- create R(); if c { destroy x; break }; destroy x }` -/
 def breakFn : Fn :=
